@@ -1,5 +1,5 @@
 """C13 — every request gets exactly one answer carrying its own transaction id (structural clauses)."""
-from ..ir import callee, short, walk, ctor_name, pat_variants, AnchorMissing
+from ..ir import callee, short, walk, ctor_name, pat_variants, strip_not, AnchorMissing
 from ..trace import Tracer, ok_exits, err_exits, count, base, peel
 from ..prov import Bindings
 from .common import *
@@ -436,5 +436,106 @@ def rule_g(prog, rep, rid='C13.g'):
             rep.ok(rid, f'V0::{h}', f.loc, f'{nsp} paths spawn the forwarder, all after the Ack')
 
 
-RULES = [('C13.a', rule_a), ('C13.b', rule_b), ('C13.c', rule_c), ('C13.d', rule_d), ('C13.e', rule_e), ('C13.f', rule_f),
+def rule_h(prog, rep):
+    rep.rule('C13.h', 'T3+T4', 'every decoded request reaches a dispatcher and the session goes on: in Proto::process_incoming_message '
+             'each ProtocolHandler variant delegates to the process_incoming_message of its own version (result propagated with '
+             '`?`), a decoded request ends in Ok(true) (keep reading: the next pipelined request is served), end of input and an '
+             'undecodable line end in Ok(false); the serve loops stop reading exactly on false')
+    crate = prog.crate(WB)
+    f = crate.fn(f'{PROTO}::process_incoming_message')
+    ms = [nd for nd, a in crate.walk_fn(f) if nd.get('k') == 'match' and 'ProtocolHandler' in str(nd.get('scrut_ty'))]
+    if len(ms) != 1:
+        raise AnchorMissing(f'match over ProtocolHandler in Proto::process_incoming_message ({len(ms)})')
+    want = {'V0': f'{V0}::process_incoming_message', 'V1': f'{V1}::process_incoming_message'}
+    seen_v = set()
+    for arm in ms[0]['arms']:
+        for v in pat_variants(arm['pat']):
+            sv = short(v)
+            seen_v.add(sv)
+            if sv not in want:
+                rep.violation('C13.h', f'Proto:{sv}', f'{f.file}:{arm.get("ln")}', 'catch-all / unknown arm in the version dispatch', key=f'C13.h/Proto/{sv}')
+                continue
+            calls = [(nd, a) for nd, a in walk(arm['body']) if nd.get('k') == 'call' and callee(nd) == want[sv]]
+            good = len(calls) == 1
+            if good:
+                nd, anc = calls[0]
+                chain = [x for x in anc if isinstance(x, dict)]
+                par = chain[-1] if chain else {}
+                if par.get('k') == 'await':
+                    par = chain[-2] if len(chain) > 1 else {}
+                good = par.get('k') == 'try'
+            if good:
+                rep.ok('C13.h', f'Proto:{sv}', f'{f.file}:{arm.get("ln")}', f'delegates to {short(want[sv])} of {sv} with `?`')
+            else:
+                rep.violation('C13.h', f'Proto:{sv}', f'{f.file}:{arm.get("ln")}', f'the {sv} arm does not hand the request to {want[sv]} (with `?`)',
+                              key=f'C13.h/Proto/{sv}/delegation')
+    for sv in want:
+        if sv not in seen_v:
+            rep.violation('C13.h', f'Proto:{sv}', f.loc, f'no arm for ProtocolHandler::{sv}', key=f'C13.h/Proto/{sv}/missing')
+
+    def classify(nd, anc):
+        if nd.get('k') != 'call':
+            return None
+        c = callee(nd)
+        if c in want.values():
+            return 'dispatch'
+        cn = ctor_name(nd)
+        if cn and short(cn) == 'Ok' and nd['args'] and nd['args'][0].get('k') == 'lit' and isinstance(nd['args'][0]['v'].get('v'), bool):
+            return 'ret:' + str(nd['args'][0]['v']['v'])
+        if short(c) == 'from_str' and 'serde_json' in c:
+            return 'decode'
+        return None
+    paths = Tracer(crate, classify, closure_mode=lambda c_, cl: 'inline').run_fn(f)
+    problems = []
+    n_disp = 0
+    for (ex, t, v) in ok_exits(paths):
+        tb = [base(x) for x in t if '@' not in x]
+        rets = [x for x in tb if x.startswith('ret:')]
+        if 'dispatch' in tb:
+            n_disp += 1
+            if rets[-1:] != ['ret:True']:
+                problems.append(f'a dispatched request ends the session ({rets})')
+    if n_disp == 0:
+        problems.append('no path dispatches a request')
+    # the three non-request outcomes
+    arms = [nd for nd, a in crate.walk_fn(f) if nd.get('k') == 'match' and 'Result<std::option::Option<' in str(nd.get('scrut_ty')) and 'ClientMessage' in str(nd.get('scrut_ty'))]
+    if len(arms) == 1:
+        for arm in arms[0]['arms']:
+            vs = [short(x) for x in pat_variants(arm['pat'])]
+            lits = [nd['args'][0]['v']['v'] for nd, a in walk(arm['body']) if nd.get('k') == 'call' and short(ctor_name(nd) or '') == 'Ok' and
+                    nd['args'] and nd['args'][0].get('k') == 'lit' and isinstance(nd['args'][0]['v'].get('v'), bool)]
+            txt = str(arm['pat'])
+            if 'None' in txt or vs == ['Err']:
+                if lits != [False]:
+                    problems.append(f'end of input / undecodable line does not stop the session ({vs}: {lits})')
+    else:
+        problems.append('decode result match not found')
+    if problems:
+        rep.violation('C13.h', 'Proto:continuation', f.loc, '; '.join(sorted(set(problems))), key='C13.h/Proto/continuation/' + '|'.join(sorted({p_.split(' (')[0] for p_ in problems})))
+    else:
+        rep.ok('C13.h', 'Proto:continuation', f.loc, f'{n_disp} dispatching paths end in Ok(true); EOF / decode error end in Ok(false)')
+    # the serve loops stop exactly on `false`
+    n = 0
+    for name in ('server::tcp', 'server::unix'):
+        for g in crate.top_fns():
+            if not g.path.startswith(name + '::') or short(g.path) != 'process_line':
+                continue
+            n += 1
+            b = Bindings(crate, g)
+            ifs = [nd for nd, a in crate.walk_fn(g) if nd.get('k') == 'if']
+            good = False
+            for nd in ifs:
+                c, pol = strip_not(nd['cond'])
+                if c.get('k') == 'path' and any('process_incoming_message' in x for x in b.origins(c)) and pol is False:
+                    good = any(x.get('k') == 'return' and 'Break' in str(x)[:600] for x, _ in walk(nd['then']))
+            conts = [nd for nd, a in crate.walk_fn(g) if nd.get('k') == 'call' and (ctor_name(nd) or '').endswith('ControlFlow::Continue')]
+            if good and conts:
+                rep.ok('C13.h', f'{name}::process_line', g.loc, 'Break on false, Continue otherwise')
+            else:
+                rep.violation('C13.h', f'{name}::process_line', g.loc, 'the serve loop does not continue after a served request / stop on false',
+                              key=f'C13.h/{name}/process_line')
+    rep.floor('C13.h', n, 2, 'socket serve loops')
+
+
+RULES = [('C13.h', rule_h), ('C13.a', rule_a), ('C13.b', rule_b), ('C13.c', rule_c), ('C13.d', rule_d), ('C13.e', rule_e), ('C13.f', rule_f),
          ('C13.g', rule_g)]
